@@ -49,6 +49,11 @@ func genXZWCase(r *sim.Rng, tier string, idx int, tail bool) *WCase {
 			{Kind: "text", N: max / 4, Seed: r.Uint64()},
 		}}
 	}
+	if cfg.DictCap != 0 && cfg.DictCap <= 1<<16 && r.Chance(1, 7) && (cfg.BlockSize == 0 || cfg.BlockSize > 4096) {
+		if cfg.Matcher == 0 || cfg.DictCap <= 8192 {
+			pl = dictAwarePayload(r, cfg.DictCap, cfg.BufSize)
+		}
+	}
 	n := pl.Len()
 	marks := []int{65536}
 	if cfg.BlockSize > 0 {
